@@ -172,7 +172,68 @@ def enumerate_cases(tier: str, seed: int) -> list[dict[str, Any]]:
         for dp in (False, True):
             for naming in NAMING:
                 cases.append({"key": f"stress:{name}#{'f64' if dp else 'f32'}@{naming}", "src": "stress", "name": name, "dp": dp, "naming": naming, "cost": 0.5})
+    for dt in ("int64", "uint64", "int32", "uint8", "int8", "int16", "bool", "float64", "float32", "float16"):
+        for form in ("np_array", "jax_array", "shape_dtype_struct"):
+            for dp in (False, True):
+                cases.append({"key": f"specform:{dt}:{form}:dp={int(dp)}", "src": "specform", "dtype": dt, "form": form, "dp": dp, "cost": 0.5})
     return recs.only_filter(cases)
+
+
+def _specform_case(case: dict[str, Any]) -> dict[str, Any]:
+    """The positional input is described by an *example array* / ShapeDtypeStruct of a given dtype: the model must
+    declare what JAX sees under the export's own precision setting (floats follow the flag, integers keep the JAX
+    type or widen to int64 - never narrower), and accept the example it was exported with."""
+    import jax
+    import jax.numpy as jnp
+    import onnx
+    from jax2onnx.user_interface import to_onnx
+
+    rec: dict[str, Any] = {"evals": 0, "nontrivial": [], "violations": [], "obs": {}}
+    dt, form, dp = np.dtype(case["dtype"]), case["form"], case["dp"]
+    example = (np.arange(6) % 2 == 0).reshape(2, 3) if dt == np.bool_ else (np.arange(6).reshape(2, 3) % 5).astype(dt)
+    fn = lambda a: (a + a if dt != np.bool_ else a ^ a, a[:1])  # noqa: E731
+    if form == "np_array":
+        spec = example
+    elif form == "jax_array":
+        spec = jnp.asarray(example)  # narrowed by the session's own x64 setting, like any user array
+    else:
+        spec = jax.ShapeDtypeStruct(example.shape, dt)
+    seen_dt = np.dtype(spec.dtype)
+    with registry.x64(dp):
+        want = [np.dtype(l.dtype) for l in jax.tree_util.tree_leaves(jax.eval_shape(fn, jax.ShapeDtypeStruct(example.shape, jax.dtypes.canonicalize_dtype(seen_dt))))]
+        want_in = np.dtype(jax.dtypes.canonicalize_dtype(seen_dt))
+    try:
+        model = to_onnx(fn, [spec], enable_double_precision=dp)
+    except Exception as exc:  # noqa: BLE001
+        return {"status": "inconclusive", "reason": "export_raises", "detail": f"{type(exc).__name__}: {str(exc)[:160]}"}
+    rec["evals"] = 1
+    rec["nontrivial"].append(case["key"])
+    fam = "specform/" + case["dtype"]
+
+    def np_of(vi):
+        return np.dtype(onnx.helper.tensor_dtype_to_np_dtype(vi.type.tensor_type.elem_type))
+
+    def ok(declared: np.dtype, jaxdt: np.dtype) -> bool:
+        if jaxdt.kind == "f":
+            return declared == (np.dtype(np.float64) if dp and jaxdt.itemsize >= 4 else (np.dtype(np.float32) if jaxdt.itemsize >= 4 else declared))
+        if jaxdt.kind in "iu":
+            return declared == jaxdt or declared == np.dtype(np.int64) or (jaxdt.kind == "u" and declared == np.dtype(np.uint64))
+        return declared == jaxdt
+
+    ins = [i for i in model.graph.input if i.name not in {t.name for t in model.graph.initializer}]
+    if len(ins) != 1:
+        rec["violations"].append({"family": fam, "kind": "input_count", "cls": f"{form}:dp={int(dp)}", "text": f"{case['key']}: {len(ins)} graph inputs for one positional argument"})
+    else:
+        d = np_of(ins[0])
+        if not ok(d, want_in):
+            rec["violations"].append({"family": fam, "kind": "input_dtype", "cls": f"{form}:dp={int(dp)}", "text": f"{case['key']}: the spec has dtype {seen_dt}, JAX under this export sees {want_in}, the model declares {d}"})
+    for k, (o, w) in enumerate(zip(model.graph.output, want)):
+        d = np_of(o)
+        if not ok(d, w):
+            rec["violations"].append({"family": fam, "kind": "output_dtype", "cls": f"{form}:dp={int(dp)}", "text": f"{case['key']}: output {k} is {w} in JAX under this export, the model declares {d}"})
+    rec["status"] = "violated" if rec["violations"] else "held"
+    rec["sample"] = {"spec_dtype": str(seen_dt), "form": form, "enable_double_precision": dp, "declared_input": str(np_of(ins[0])) if ins else None}
+    return rec
 
 
 # ----------------------------------------------------------------------------
@@ -387,6 +448,8 @@ def _names_for(naming: str, n_in: int, n_out: int, model_default, rng) -> tuple[
 
 
 def run_case(case: dict[str, Any], tier: str, seed: int) -> dict[str, Any]:
+    if case["src"] == "specform":
+        return _specform_case(case)
     from jax2onnx.user_interface import to_onnx
 
     rec: dict[str, Any] = {"evals": 0, "nontrivial": [], "violations": [], "obs": {}}
